@@ -544,6 +544,10 @@ def check_blocking(c, repo, R):
             elif d == 'time.sleep':
                 n_sites += 1
                 a = k.args[0] if k.args else None
+                if isinstance(a, ast.Name):
+                    # a local that holds the configured delay (read once per iteration)
+                    v_ = aliases_of(f).single_assign.get(a.id) or getattr(aliases_of(f), 'stale_single', {}).get(a.id)
+                    a = v_ if v_ is not None else a
                 okc = isinstance(a, ast.Constant) and isinstance(a.value, (int, float)) and a.value <= 1 or \
                     (isinstance(a, ast.Attribute) and a.attr in ('delayafterread', 'delaybeforesend', 'delayafterclose', 'delayafterterminate'))
                 c.check(okc, f, k, 'sleep is a small constant / configured delay', witness=norm(k), kind='ast', tag='sleep')
